@@ -13,6 +13,7 @@ import Driver.C04
 import Driver.C18
 import Driver.C16
 import Driver.C02
+import Driver.C15
 namespace Driver
 
 def dispatch (op : String) : Option Handler :=
@@ -40,6 +41,7 @@ def dispatch (op : String) : Option Handler :=
   | "pctidx" => some Verbs.pctidx
   | "fanout" => some C20.fanout
   | "chainb" => some C04.chainb
+  | "str" => some C15.str
   | "flat" => some C02.flat
   | "optseq" => some C02.optseq
   | "optne" => some C02.optne
